@@ -23,6 +23,8 @@ def imaginary_in_string(
 
 
 def convert_val_to_complex(val: str) -> Union[complex, float]:
+    if pd.isna(val):
+        return np.nan
     result = complex(val)
     return (
         np.nan if any(math.isnan(val) for val in (result.real, result.imag)) else result
